@@ -132,7 +132,13 @@ class PropertyRun:
             print('   obligation: %s\n   what: %s' % (v.obligation, v.what))
         wall = time.time() - self.t0
         proved_all = self.obligations > 0 and self.discharged == self.obligations and not self.undecided and not real
-        level = 'proof' if proved_all and not knowns else 'other'
+        claimed = 'other'
+        for c in load_json(os.path.join(HERE, 'MANIFEST.json'), {}).get('checks', []):
+            if c.get('property_id') == self.pid:
+                claimed = c.get('level_claimed', {}).get('category', 'other')
+        # the level written is the level claimed in MANIFEST.json whenever this run supports it; a proof-level claim needs every
+        # obligation discharged, nothing undecided, no violation and no known finding among the obligations
+        level = 'proof' if (claimed == 'proof' and proved_all and not knowns) else 'other'
         cov = {
             'obligations': self.obligations, 'discharged': self.discharged,
             'checker_cmd': 'bin/check %s --tier %s' % (self.pid, self.tier),
